@@ -10,7 +10,7 @@ What the fake connection models (and nothing else):
     lasts until the next commit() / rollback() / close(); close() and rollback() discard it;
   * with autocommit True every statement is its own transaction;
   * the statements themselves are executed on a SQLite file as relational substrate (same tables,
-    lower-case names; pyformat placeholders rewritten by vf.engines.dm.bind_placeholders), with the
+    lower-case names; pyformat placeholders rewritten by bind_pyformat below), with the
     transaction boundaries above mapped to BEGIN / COMMIT / ROLLBACK of one sqlite3 connection per
     fake connection - so "what is committed" can be read back by an independent connection;
   * SET TRANSACTION ..., DISCARD ALL are accepted and do nothing.
@@ -21,7 +21,23 @@ Server log entries: (connection number, transaction id or 'auto', verb, is_write
 import os, sqlite3, shutil
 from vf import core, stubs
 from vf.seams import dbapi
-from vf.engines import fx, dm
+from vf.engines import fx
+import re
+
+_PYFORMAT = re.compile(r'%\(([^)]*)\)s|%%|%s')
+def bind_pyformat(sql, args):
+    """what a pyformat driver does with (sql, args), as (qmark sql, tuple): %(name)s / %s placeholders take their
+    values from args, %% is a literal % when args are passed (PEP 249 / psycopg2). Self-contained on purpose."""
+    if args is None: return sql, ()
+    out, pos = [], [0]
+    def rep(m):
+        if m.group(0) == '%%': return '%'
+        if m.group(0) == '%s':
+            out.append(args[pos[0]]); pos[0] += 1
+            return '?'
+        out.append(args[m.group(1)])
+        return '?'
+    return _PYFORMAT.sub(rep, sql), tuple(out)
 
 PG_FAULT_KINDS = ('op_none', 'op_admin', 'op_serial', 'integrity', 'interface')
 RECONNECTABLE = ('op_none', 'op_admin')
@@ -71,11 +87,11 @@ class FakeCursor(object):
         if many:
             c = sq.cursor()
             for a in args:
-                s, b = dm.bind_placeholders(sql, a, 'pyformat')
+                s, b = bind_pyformat(sql, a)
                 c.execute(s, b)
             self.cur = c
         else:
-            s, b = dm.bind_placeholders(sql, args, 'pyformat')
+            s, b = bind_pyformat(sql, args)
             self.cur = sq.execute(s, b)
     def execute(self, sql, args=None):
         dbapi.ENV.on_call('execute', sql, args, self.con)
